@@ -59,4 +59,16 @@ def chunkSizeLegacy (nKeys K numPeers : Nat) : Option Nat :=
 def chunkSize (nKeys K numPeers : Nat) : Except Unit Nat :=
   if numPeers == 0 then .error () else .ok (let c := nKeys * K * 2 / numPeers; if c == 0 then 1 else c)
 
+/-! ### the accelerated client's provider search (fullrt/dht.go `findProvidersAsyncRoutine`) -/
+
+/-- `psTryAdd` under its lock: a provider is accepted once, and only while fewer than `count` were accepted
+    (`count` = 0: no bound) -/
+def psTryAdd (count : Nat) (ps : List Nat) (p : Nat) : List Nat × Bool :=
+  if !ps.contains p && (ps.length < count || count == 0) then (ps ++ [p], true) else (ps, false)
+
+/-- the providers yielded when the candidates (the local store's, then the answers' in whatever order the concurrent
+    requests deliver them) arrive in this order: every accepted candidate is sent on the channel once -/
+def yielded (count : Nat) (arrivals : List Nat) : List Nat :=
+  arrivals.foldl (fun ps p => (psTryAdd count ps p).1) []
+
 end KadDHT.FullRT
